@@ -201,3 +201,71 @@ Theorem hard_refused_public_path : forall blake hard soft softpub k p el q k',
   derive_path blake hard soft softpub k (p ++ el :: q) = Err (LibError SubstrateKeyError).
 Proof. exact Lemmas.SubstratePath.hard_refused_public_path. Qed.
 Print Assumptions hard_refused_public_path.
+
+(* ===== linked to the concrete codec models ===== *)
+(* (1) The clause the header lists as "not covered here" -- the address is the SS58 encoding of the derived public
+       key -- on the SS58 model of C11 (Model/SS58.v, Lemmas/SS58Ok.v): path string -> derived key -> address ->
+       the library's decoder returns the derived public key (Model/LinkSubstrate.v).
+   (2) The SCALE compact-integer and bytes encoders of this property's chain-code model (Model/SubstrateScale.v) and
+       those of C11 (Model/Scale.v) are two independent transcriptions: proved equal on every input, so C11's
+       decode-after-encode and unique-decodability theorems hold here -- including the big-integer mode (texts of
+       2^30 bytes and more) that [scale_compact] above leaves out.
+   (3) The UTF-8 encoder proved here against RFC 3629 is the same function as the two other transcriptions in the
+       tree (Model/MnemText.v for C17, Model/Seeds.v for C02) on every Python string.
+   Oracles left: Blake2b-512 / Blake2b-256, the sr25519 operations and key test. *)
+From BU Require Import Gen.CodecConsts Model.Scale Model.Codecs Model.AddrText Model.LinkSubstrate.
+From BU Require Model.MnemText Model.Seeds.
+From BU Require Lemmas.LinkSubstrate Lemmas.LinkScale Lemmas.LinkUtf8.
+
+Theorem wallet_address_is_ss58_of_derived_key : forall blake256 blake512 hard soft softpub valid_pub fmt k path s,
+  (forall x, length (blake512 x) = 64%nat) -> (forall x, bytes_ok (blake512 x)) ->
+  sub_wallet_address blake256 blake512 hard soft softpub fmt k path = Ok s ->
+  exists p k', parse path = Ok p /\ derive_path blake256 hard soft softpub k p = Ok k' /\
+    sub_address blake512 fmt k' = Ok s /\
+    (bytes_ok (k_pub k') -> valid_pub 4 (k_pub k') = true ->
+     sub_address_decode blake512 valid_pub fmt s = Ok (k_pub k')).
+Proof.
+  intros blake256 blake512 hard soft softpub valid_pub fmt k path s H1 H2.
+  exact (Lemmas.LinkSubstrate.wallet_address_dec_enc blake256 blake512 hard soft softpub valid_pub H1 H2 fmt k path s).
+Qed.
+Print Assumptions wallet_address_is_ss58_of_derived_key.
+
+(* watch-only: along soft junctions the public-only object yields the same address (from the schnorrkel law) *)
+Theorem watch_only_same_address : forall blake256 blake512 hard soft softpub fmt k p,
+  (forall cc pk sk, fst (soft cc pk sk) = softpub cc pk) -> Forall (fun el => e_hard el = false) p ->
+  (k' <- derive_path blake256 hard soft softpub (to_public k) p ;; sub_address blake512 fmt k') =
+  (k' <- derive_path blake256 hard soft softpub k p ;; sub_address blake512 fmt k').
+Proof.
+  intros blake256 blake512 hard soft softpub fmt k p L.
+  exact (Lemmas.LinkSubstrate.watch_only_same_address blake256 blake512 hard soft softpub L fmt k p).
+Qed.
+Print Assumptions watch_only_same_address.
+
+Theorem scale_models_agree :
+  (forall v, cuint_encode v = scale_compact_encode (Z.of_N v)) /\
+  (forall s u, utf8_encode s = Ok u -> bytes_encode_str s = scale_bytes_encode u).
+Proof. exact (conj Lemmas.LinkScale.cuint_encode_eq Lemmas.LinkScale.bytes_encode_str_eq). Qed.
+Print Assumptions scale_models_agree.
+
+(* transported from C11: every compact prefix decodes, in all four modes *)
+Theorem scale_compact_all_modes : forall v rest, v <= scale_big_max ->
+  exists b, cuint_encode v = Ok b /\ compact_decode (b ++ rest) = Ok (v, rest) /\ bytes_ok b.
+Proof. exact Lemmas.LinkScale.cuint_dec_enc. Qed.
+Print Assumptions scale_compact_all_modes.
+
+Theorem scale_compact_range_linked : forall v, scale_big_max < v -> cuint_encode v = Err ValueError.
+Proof. exact Lemmas.LinkScale.cuint_range. Qed.
+Print Assumptions scale_compact_range_linked.
+
+(* a junction's text is recoverable from its SCALE encoding (compact length || UTF-8): no two texts collide
+   before padding / hashing *)
+Theorem junction_text_encoding_injective : forall s1 s2 b,
+  bytes_encode_str s1 = Ok b -> bytes_encode_str s2 = Ok b -> s1 = s2.
+Proof. exact Lemmas.LinkScale.bytes_encode_str_inj. Qed.
+Print Assumptions junction_text_encoding_injective.
+
+Theorem utf8_models_agree :
+  (forall s, MnemText.utf8 s = utf8_encode s) /\
+  (forall s, Forall (fun c => c < 1114112) s -> Seeds.utf8 s = utf8_encode s).
+Proof. exact (conj Lemmas.LinkUtf8.mnem_utf8_eq Lemmas.LinkUtf8.seeds_utf8_eq). Qed.
+Print Assumptions utf8_models_agree.
